@@ -127,19 +127,32 @@ class LinesearchSolver(NonlinearSolver):
                 if not np.isscalar(ref):
                     ref = ref.ravel()
 
-                if var_lower is not None:
+                # Scale both bounds to solver units.  A negative scale factor (ref < ref0)
+                # reverses the interval, so there the scaled upper bound is the lower one.
+                if var_lower is None:
+                    var_lower = -np.inf
+                elif not np.isscalar(var_lower):
+                    var_lower = var_lower.ravel()
+                if var_upper is None:
+                    var_upper = np.inf
+                elif not np.isscalar(var_upper):
+                    var_upper = var_upper.ravel()
+
+                scaled0 = (var_lower - ref0) / (ref - ref0)
+                scaled1 = (var_upper - ref0) / (ref - ref0)
+                reversed_ = (ref - ref0) < 0
+                scaled_lower = np.where(reversed_, scaled1, scaled0)
+                scaled_upper = np.where(reversed_, scaled0, scaled1)
+
+                if np.any(scaled_lower != -np.inf):
                     if self._lower_bounds is None:
                         self._lower_bounds = np.full(len(system._outputs), -np.inf)
-                    if not np.isscalar(var_lower):
-                        var_lower = var_lower.ravel()
-                    self._lower_bounds[start:end] = (var_lower - ref0) / (ref - ref0)
+                    self._lower_bounds[start:end] = scaled_lower
 
-                if var_upper is not None:
+                if np.any(scaled_upper != np.inf):
                     if self._upper_bounds is None:
                         self._upper_bounds = np.full(len(system._outputs), np.inf)
-                    if not np.isscalar(var_upper):
-                        var_upper = var_upper.ravel()
-                    self._upper_bounds[start:end] = (var_upper - ref0) / (ref - ref0)
+                    self._upper_bounds[start:end] = scaled_upper
 
                 start = end
         else:
